@@ -18,6 +18,7 @@ of the model.  Unreachable from `run_a_star`, whose counter starts at 0 and grow
 expansion (2^64 expansions), and outside the builder's reach; the limits `u64::MAX`, `usize::MAX` and 0
 themselves are generated (extreme-value stream of harness/src/searchprops.rs).
 -/
+import Compass.Model.Search
 import Compass.Gen.Decisions
 import Compass.Proofs.Num
 import Compass.Model.Instance
@@ -979,6 +980,12 @@ theorem src_term_runtime (limitNs freq baseNs perNs sz it : Nat) (hf : freq ≠ 
       (term_frequency.nat (it % freq) 0).bind fun due =>
         if due then term_runtime.nat (baseNs + perNs * it) limitNs else some false := by
   simp [TermM.fires, term_frequency, term_runtime, Rel.nat, hf]
+
+/-- shared by every search property: the label test of `run_a_star`'s relaxation (`improves`) is the
+source's `tentative_gscore < existing_gscore`; with `<=` an equal-cost arrival re-labels an expanded vertex -/
+theorem src_relax_improves {α : Type} [Field α] [LinearOrder α] [IsStrictOrderedRing α] [Lit α] [LawfulLit α] (tent ex : α) :
+    some (improves tent (some ex)) = relax_improves.num tent ex := by
+  simp [improves, relax_improves, Rel.num]
 
 end C10
 end Compass
